@@ -110,6 +110,34 @@ func main() {
 		}
 		fmt.Printf("total %.1fs\n", time.Since(t0).Seconds())
 		os.Exit(rc)
+	case "selftest":
+		// runs every stored variant of the given (or all) properties; exit 1 if one is missed
+		c, err := Load(*repo, nil)
+		if err != nil {
+			fmt.Println("INFRA-ERROR:", err)
+			os.Exit(2)
+		}
+		ids := pos
+		if len(ids) == 0 {
+			ids = propIDs()
+		}
+		missed := 0
+		for _, id := range ids {
+			f := props[id]
+			if f == nil {
+				continue
+			}
+			r := NewReport(c, id, "thorough")
+			runProp(f, c, r)
+			runVariants(c, r, id, *repo)
+			fmt.Printf("%s variants: total=%v detected=%v stale=%v missed=%v\n", id, r.Extra["variants_total"], r.Extra["variants_detected"], r.Extra["variants_stale"], r.Extra["variants_missed"])
+			if m, ok := r.Extra["variants_missed"].(int); ok {
+				missed += m
+			}
+		}
+		if missed > 0 {
+			os.Exit(1)
+		}
 	case "variant":
 		// internal: check one property on the tree with an overlay; prints obligation keys that fail
 		if len(pos) != 2 {
